@@ -442,9 +442,18 @@ class Sim:
         S = state_digest(h)
         others = self._others(hi)
         path = "/simfs/h%d/%s" % (hi, O.WRITE_FAULT_TARGETS[st["fmt"]])
+        if st["when"] == "read":
+            # a good file first, then the read of it fails
+            try:
+                h.save(path)
+            except Exception:  # noqa: BLE001 - writer limitation, nothing to inject into
+                pass
         FS.arm(st["when"], st["errno"])
         try:
-            h.save(path)
+            if st["when"] == "read":
+                Crystal.load(path)
+            else:
+                h.save(path)
             result = "no_error"
         except OSError as e:
             result = "oserror:%d" % e.errno
@@ -454,7 +463,8 @@ class Sim:
             fired = FS.disarm()
         if fired:
             self.stats["wfail:%s:%s" % (st["when"], st["fmt"])] += 1
-            if not result.startswith("oserror"):
+            silent = st["when"] in ("lost", "short")
+            if (not silent and not result.startswith("oserror")) or (silent and result != "no_error"):
                 raise Violation(
                     "EXCEPTION_MISMATCH", i, "wfail", hi,
                     {"what": "injected write error did not surface from save()", "result": result},
